@@ -410,7 +410,8 @@ pub fn build<C: Coll>(spec: &Spec) -> C {
     let mut rng = Rng::new(spec.seed);
     let bh = PlanBH::new(spec.plan, spec.salt);
     let space = C::id_space();
-    let lim = |n: u32| n.min(space.saturating_sub(1)).max(if space > 1 { 1 } else { 0 });
+    // leave one id of the space unused (an absent key must exist), except for one-value types such as the ZST
+    let lim = |n: u32| if space <= 1 { n.min(1) } else { n.min(space - 1).max(1) };
     let mut gen: u16 = 100;
     let mut g = || {
         gen = gen.wrapping_add(1);
